@@ -91,6 +91,11 @@ CHECKS = {
          'Each generated module carries exactly one planted problem (unresolvable cross-reference, markup error, unknown field, documented parameter that does not exist) in a module / class / function / method / attribute docstring, under epytext, reST, google and numpy, in 6 layouts (text on the opening line, below it, after 1 or 2 blank lines, after a whitespace-only line, after trailing blanks on the quote line) x nesting 0-2 x raw/plain x decorator, at 5 positions (first / second line of the first paragraph, second paragraph, list item, field body) and offsets {0,1,3}; 20 modules per -W run, attributed by file name (quick 5 136, thorough ~25 000 modules). Every line reported for the file must lie in [start of the containing block, line of the problem] for epytext/reST, inside the docstring for google/numpy; offset k must shift the report by exactly k; the -W status must be 3 iff anything was printed. 40 single-problem runs check the statuses with and without -W (2 iff a fatal markup error, else 0).',
          'Trusted: the source generator that knows the physical lines; message wording is not judged.',
          'DESIGN.md section 5, C16'),
+ 'C01': ('exploration',
+         'exhaustive enumeration of statement shapes x placements x docformats (singles and ordered pairs), file-level and multi-file items as full driver runs, batched 20 per run with bisection',
+         'A 145-shape statement alphabet - one item per shortcut in the AST builder, astutils, the model, the extensions and the renderers (definitions, decorators incl. overload/deprecated/property/old-style wrappers, class headers, every assignment and annotation form, Final/ClassVar/TypeAlias/TypeVar, __doc__/__all__/__docformat__ assignments incl. unevaluable values, imports, control-flow containers, string statements, every ast.expr class as value/default/annotation/decorator argument/base, regex constants incl. pathological ones, depth and size items, zope/attrs/deprecate extension inputs, PEP 695 syntax) - is instantiated in 6 placements and run under all 5 docformats; all ordered pairs of a 40-shape collision subset (thorough: of all shapes in module and class scope under 3 docformats, ~120 k cases) share one scope. 46 file-level items (undecodable, unparsable, odd names, odd tree shapes) sit next to a good module and 8 multi-file projects exercise cycles and re-exports of missing or unparsable modules. Each run must return with status 0/2/3 without exception or hang, write index, summary pages, both search indexes (valid JSON), objects.inv (inflatable) and one page per module; unparsable files are named on stdout and the sibling stays documented. Failing batches are bisected to single cases and pairs are attributed to the failing component.',
+         'Trusted: the alphabet as a faithful cover of the code\'s branches (new branches need new items); in-process driver.main (a conformance subset runs as subprocess in C18).',
+         'DESIGN.md section 5, C01'),
 }
 
 
